@@ -31,6 +31,8 @@ type Prog struct {
 	// declaration index
 	FuncDecl map[*types.Func]*ast.FuncDecl
 	DeclPkg  map[*types.Func]*packages.Package
+	decodeC  []*ssa.Function
+	encodeC  []*ssa.Function
 }
 
 // CodecType is one member of the codec universe: a named type of the module
